@@ -159,19 +159,63 @@ def ob_transform(ctx, res):
         res.fail("transform/chain", ms[0], "expected merge_sections_many(..).map(clip, adjust).filter(> threshold); chain is %s" % [m["method"] for m in methods])
         return
     mp, fl = methods
-    t = up(mp["args"][0])
-    mclip = re.search(r"if let Some\((\w+)\) = (\w+) \{(\w+)\.value = \1\.min\(\3\.value\);?\}", t)
-    madj = re.search(r"(\w+)\.value \+= (\w+);", t)
-    if not mclip or not madj or t.index(mclip.group(0)) > t.index(madj.group(0)):
-        res.fail("transform/order", mp, "per value: clip (min) first, then + adjust; closure is `%s`" % t[:160])
+    # the map and filter closures are evaluated on Ok(value) / Err with (threshold, adjust, clip) numeric: clip (min) first, then + adjust; kept iff > threshold
+    pn = [p_[0] for p_ in fn.params]
+    bad = None
+    for clip in (None, 5.0):
+        for adj in (None, 2.0):
+            for thr in (0.0, 4.0, 6.0, 6.5):
+                for item in (("some", {"__type": "Value", "start": 1, "end": 2, "value": 4.0}), ("some", {"__type": "Value", "start": 1, "end": 2, "value": 9.0}), ("err", "E")):
+                    env = {pn[0]: "ITERS", pn[1]: thr, pn[2]: None if adj is None else ("some", adj), pn[3]: None if clip is None else ("some", clip)}
+
+                    def binop(op, a_, b_):
+                        if isinstance(a_, (int, float)) and isinstance(b_, (int, float)) and op in ("+", "-", "*"):
+                            return a_ + b_ if op == "+" else (a_ - b_ if op == "-" else a_ * b_)
+                        raise NotPure("arithmetic")
+
+                    def method(m, recv, args):
+                        if m == "as_ref" and not args:
+                            return recv
+                        raise NotPure("method " + m)
+                    it = Interp(ctx.ast, MG, extern={"None": None, "binop": binop, "method": method, "floats": True})
+                    try:
+                        # lets before the chain (e.g. `let adjust = adjust.unwrap_or(0.0)`)
+                        pre = [x for x in fn.body["stmts"] if x.k == "let" and x.order < ms[0].order and not any(y is ms[0] for y in walk_no_nested_fn(x))]
+                        scope = dict(env)
+                        it.run_stmts(pre, scope)
+                        cm = it.ev(mp["args"][0], scope, 0)
+                        cf_ = it.ev(fl["args"][0], scope, 0)
+                        import copy
+                        mapped = it.apply_closure(cm, [copy.deepcopy(item)])
+                        keep = it.apply_closure(cf_, [mapped])
+                    except NotPure as e:
+                        bad = ("undecided", str(e))
+                        break
+                    if item[0] == "err":
+                        want_m, want_k = item, True
+                    else:
+                        v0 = item[1]["value"]
+                        v1 = (min(clip, v0) if clip is not None else v0) + (adj or 0.0)
+                        want_m, want_k = ("some", dict(item[1], value=v1)), v1 > thr
+                    if mapped != want_m:
+                        bad = ("map", "for value %s, clip %s, adjust %s the transformed item is %s, required %s (clip with min first, then + adjust)" % (item, clip, adj, mapped, want_m))
+                        break
+                    if bool(keep) != want_k:
+                        bad = ("filter", "for value %s, clip %s, adjust %s, threshold %s the item is %s, required %s (kept iff value > threshold; errors pass through)" % (item, clip, adj, thr, "kept" if keep else "dropped", "kept" if want_k else "dropped"))
+                        break
+                if bad:
+                    break
+            if bad:
+                break
+        if bad:
+            break
+    if bad and bad[0] == "undecided":
+        res.undecided("transform/not-evaluable", mp, "the per-value transform is outside the fragment the rule evaluates (%s)" % bad[1])
+    elif bad and bad[0] == "map":
+        res.fail("transform/order", mp, "per value: clip (min) first, then + adjust: %s" % bad[1])
         return
-    if origin(fn, _name_node(fn, mclip.group(2), mp)) != "p3" or "p2" not in origin(fn, _name_node(fn, madj.group(2), mp)):
-        res.fail("transform/params", mp, "clip/adjust must be the constructor's parameters")
-        return
-    ft = up(fl["args"][0])
-    m = re.search(r"map_or\(true,\|(\w+)\| \1\.value > (\w+)\)", ft)
-    if not m or origin(fn, _name_node(fn, m.group(2), fl)) != "p1":
-        res.fail("transform/threshold", fl, "values are kept iff value > threshold (errors pass through); filter is `%s`" % ft[:120])
+    elif bad:
+        res.fail("transform/threshold", fl, "values are kept iff value > threshold (errors pass through): %s" % bad[1])
         return
     res.ok(mp, "per merged value: clip (min) -> + adjust -> keep iff > threshold; errors pass through")
     # chunked path: partial merges must use neutral parameters
@@ -421,17 +465,25 @@ def ob_fill(ctx, res):
     # constructors: where filling starts and ends
     for cname, want in (("fill", {"last_val": "None", "expected_end": "None", "last_end": "0"}),
                         ("fill_start_to_end", {"last_val": "None", "expected_end": "Some(p2)", "last_end": "p1"})):
-        cf = ctx.ast.fn(FI, cname)
+        cf = ctx.ast.fn(FI, cname, inline=True)
         sl = [n for n in walk_no_nested_fn(cf.body) if n.k == "struct" and n["path"].endswith("FillValues")]
         if len(sl) != 1:
             res.fail("fill/ctor/%s" % cname, cf, "expected one FillValues literal")
             return
         got = {}
+        from ..astq import upn, _mknode
         for x in sl[0]["fields"]:
-            e = x["e"] if not x.get("shorthand") else None
-            if e is None:
-                continue
-            t_ = up(strip(e))
+            e = x.get("e")
+            if e is None or x.get("shorthand"):
+                b_ = binding_before(cf, x["name"], sl[0])
+                e = b_[1]["init"] if b_ is not None and b_[0] == "let" and b_[-1] == () and b_[1].get("init") is not None else None
+                if e is None:
+                    got[x["name"]] = x["name"]
+                    for i, (pn, _) in enumerate(cf.params):
+                        if pn == x["name"]:
+                            got[x["name"]] = "p%d" % i
+                    continue
+            t_ = upn(cf, e)
             for i, (pn, _) in enumerate(cf.params):
                 t_ = re.sub(r"\b%s\b" % re.escape(pn), "p%d" % i, t_) if pn else t_
             got[x["name"]] = t_
